@@ -93,7 +93,7 @@ def app_cases(tier, rng):
 def nontrivial(case, out):
     return 'EStarted' in out or 'SFired' in out
 
-STAGES = [dict(name='data', mode='unit', coq='Check.C01u', cases=unit_cases, nontrivial=nontrivial, shard=300,
+STAGES = [dict(name='data', mode='unit', coq='Check.C01u', profile=('Proofs.JudgeBoolP', 'JudgeBoolP.c01u_caseb', 'C01_unit_judgement_sound_exact / C01_unit_judgement_transfer (JudgeBoolP.C01u_judgement_transfer_b)'), cases=unit_cases, nontrivial=nontrivial, shard=300,
                exhaustive={'thorough': True, 'quick': True},
                rule='ActionData::update + trigger_events on a bare world with two recipients: all 9 transitions x 4 output types and all state histories of length <= 4; '
                     'kinds, order and every payload field compared'),
